@@ -263,10 +263,13 @@ for _p, _t in _EXTRA6.items():
 _EXTRA7 = {
  "C12": " Seventh round: (R-PAR-5, engine E11) the task ranges tile the input: RecordRange read path by path as polynomials over (task index, recordLen, Number, recordLen/Number) gives start(0) = 0, end(i) = start(i+1), end(last) = recordLen, empty ranges only beyond the last row; every consumer walks exactly [start, end); every task function is started for each index 0 … Number−1 — the rows the workers handle are a partition of the input for every --cpu.",
  "C13": " Seventh round: (R-PAR-5) the workers' row ranges are disjoint (premise of R-PAR-1's index-partitioned writes).",
- "C03": " Seventh round: (R-PAR-5) the parallel paths of WHERE / JOIN hand every row to exactly one worker.",
- "C04": " Seventh round: (R-PAR-5) the parallel key computation of GROUP BY hands every row to exactly one worker.",
- "C17": " Seventh round: (R-PAR-5) every partition is handed to exactly one worker of Analyze.",
- "C16": " Seventh round: (R-CUR-9) FETCH RELATIVE computes index + number only on paths whose branch conditions bound the sum on both sides (it cannot wrap around) — genuine defect repaired (be64c59); R-CUR-4 accepts a saturated move only where the branch condition proves that index + number lies on or beyond the boundary that is stored instead.",
+ "C03": " Seventh round: (R-PAR-5) the parallel paths of WHERE / JOIN hand every row to exactly one worker; R-CMP-6 registered (the BETWEEN / IN expansions decide which rows WHERE keeps); R-CMP-10, R-KEY-7 registered.",
+ "C04": " Seventh round: (R-PAR-5) the parallel key computation of GROUP BY hands every row to exactly one worker; (R-KEY-7) a byte buffer whose content becomes a map key is written only by the framed key serialisers (a memo keyed by raw texts joined with ':' hands one bucket key to two tuples); (R-CONV-4) lib/query reads a text as a number only through the lib/value conversions, apart from three listed built-ins — an aggregate with its own parser sums other rows than its bucket holds.",
+ "C17": " Seventh round: (R-PAR-5) every partition is handed to exactly one worker of Analyze; R-PAR-3 registered (partitions are built in row order); R-KEY-7 / R-CONV-4 registered.",
+ "C06": " Seventh round: (R-CMP-10) no three-to-two collapse: the argument of ternary.ConvertFromBool never compares a ternary value with a ternary constant (negation is ternary.Not); R-CONV-4 registered.",
+ "C07": " Seventh round: (R-LIM-5) LIMIT and OFFSET have one interpreter: LimitClause.Value / OffsetClause.Value are read only by View.Limit / View.Offset and the three error constructors.",
+ "C02": " Seventh round: R-TXN-6 registered (a cancelled encode never reports success).",
+ "C16": " Seventh round: (R-CUR-10) the range / open status of a cursor is consulted only by the CURSOR … IS … expressions — loops and fetches are driven by what Fetch returns; (R-CMP-10) IS NOT IN RANGE / IS NOT OPEN negate with ternary.Not. (R-CUR-9) FETCH RELATIVE computes index + number only on paths whose branch conditions bound the sum on both sides (it cannot wrap around) — genuine defect repaired (be64c59); R-CUR-4 accepts a saturated move only where the branch condition proves that index + number lies on or beyond the boundary that is stored instead.",
 }
 for _p, _t in _EXTRA7.items():
     if _p in CLAIMS:
